@@ -9,9 +9,9 @@ qm_c14 — driver for M-Sys/resources (property C14). State: a `Sys`. Requests (
   send SENDER TARGET VAL          → <delta>                 VAL ::= o | (r N) | (t VAL*) | (f VAL*)
   spawn CALLER (VAL*) VAL         → <delta>
   terminate P                     → <delta>
-  results AWAITER ((P B)*)        → <delta>                 (B = 0/1: result.is_some())
+  results AWAITER ((P R)*)        → <delta>                 (R = 0 None | 1 Some(Ok) | 2 Some(Err))
   state                           → own=… open=… next=… pend=… term=… rep=…
-<delta> ::= wf=B x=(P:KIND:RID …) c=(R …) out=(CMD …) faults=N own=(R:P …) open=(R …) next=N pend=N
+<delta> ::= wf=B x=(P:KIND:RID …) c=(R …) out=(CMD …) faults=N own=(R:P …) open=(R …) next=N pend=N pers=(P …)
   x   = what this event appended to backend.executed (execute(pid, effect) calls)
   c   = what it appended to backend.closeCalls (close_resource(id) calls), sorted (HashMap order)
   out = commands it made the environment send; wf = eventOk in the state before the event
@@ -51,10 +51,17 @@ def boolOfSx (x : Sx) : Option Bool :=
   | some 1 => some true
   | _ => none
 
-def resultsOfSx : List Sx → Option (List (Pid × Bool))
+def repOfSx (x : Sx) : Option Rep :=
+  match x.asNat with
+  | some 0 => some .pending
+  | some 1 => some .ok
+  | some 2 => some .failed
+  | _ => none
+
+def resultsOfSx : List Sx → Option (List (Pid × Rep))
   | [] => some []
   | .list [p, b] :: rest =>
-    match p.asNat, boolOfSx b, resultsOfSx rest with
+    match p.asNat, repOfSx b, resultsOfSx rest with
     | some p, some b, some r => some ((p, b) :: r)
     | _, _, _ => none
   | _ => none
@@ -103,7 +110,8 @@ def renderOwn (m : Own) : String :=
 
 def renderState (s : Sys) : String :=
   s!"own={renderOwn s.env.owner} open={renderNats (sortNat s.env.backend.openSet)} " ++
-  s!"next={s.env.backend.nextRid} pend={s.env.backend.pending.length}"
+  s!"next={s.env.backend.nextRid} pend={s.env.backend.pending.length} " ++
+  s!"pers={renderNats (sortNat s.env.persistent)}"
 
 def renderDelta (s s' : Sys) (ok : Bool) : String :=
   let x := s'.env.backend.executed.drop s.env.backend.executed.length
